@@ -129,6 +129,14 @@ func newResExec(k *Cfg) (*resExec, error) {
 		}
 		x.quotas = append(x.quotas, q)
 	}
+	// every runGC goroutine of this case must have armed its timer on THIS clock
+	// before the case goes on: a goroutine scheduled late would otherwise fetch
+	// the clock of the next case and arm an extra timer there (seen under load:
+	// "GC goroutines did not (re-)arm their timers: 2 armed, want 1")
+	if err := waitTimers(clk, len(k.Rows)); err != nil {
+		cancel()
+		return nil, err
+	}
 	return x, nil
 }
 
